@@ -59,12 +59,15 @@ REQ_SETS = (
     quick=[{"px": px, "flavour": "sync"} for px in ("http", "https")],
     thorough=[{"px": px, "flavour": fl} for px in ("http", "https") for fl in ("sync", "async")],
     example=dict(auth=True, ph=2, rq=1, secure=True, port=1, st=0, sni=False),
-    require=("forwarded", "tunnelled", "connect-refused"),
+    require=("C11:forwarded", "tunnelled", "connect-refused"),
     timeout={"quick": 300, "thorough": 600},
     symbolic="credentials on/off; proxy header set (3, one colliding case-insensitively); request method/headers/body (3); origin scheme http/https; port default/other; CONNECT reply status from 8 values",
     bounds="one request per run through an http:// or https:// proxy",
     outside="IPv6-literal origins (known finding under C19); proxy replies with bodies",
     stubs=("ProxyServer model: strict parse of what the client wrote; answers CONNECT with the scripted status",),
+    also=("C10",),
+    per_prop={"C10": {"quick": [{"px": "http", "flavour": "sync", "_pre": "secure == True and ph == 0 and rq == 0 and port == 0 and sni == False"}],
+                      "thorough": [{"px": px, "flavour": fl, "_pre": "secure == True and ph == 0"} for px in ("http", "https") for fl in ("sync", "async")]}},
 )
 def http_proxy_hop(auth: bool, ph: int, rq: int, secure: bool, port: int, st: int, sni: bool) -> None:
     """
@@ -191,10 +194,14 @@ def _http_proxy_hop(is_async: bool, px: str, pheaders: list, method: str, rheade
             P.check(isinstance(o.exc, httpcore.ProxyError), "non-2xx-gives-ProxyError", lambda: f"proxy:tunnel:{status}:{o.kind()}")
         else:
             P.check(o.documented(), "interim-only-reply-gives-documented-error", lambda: f"proxy:tunnel:{status}:{o.kind()}")
-        P.check(len(sock.written()) - (0) == len(sock.written()) and len(depth0) == connect_bytes,
-                "nothing-sent-after-refusal", "proxy:tunnel:bytes-after-refusal")
-        P.check(len(sock.tls) == own, "no-tls-after-refusal", "proxy:tunnel:tls-after-refusal")
-        P.check(not origins or origins[0].raw == b"", "origin-untouched-after-refusal", "proxy:tunnel:origin-bytes-after-refusal")
+        # (C10: the request is only ever written to a stream on which the
+        # tunnel to its origin was established - not after a refused CONNECT)
+        for prop in ("C11", "C10"):
+            P.check(not o.ok, "refused-connect-fails-the-request", f"proxy:tunnel:{status}:succeeded", prop=prop)
+            P.check(len(depth0) == connect_bytes, "nothing-sent-after-refusal", "proxy:tunnel:bytes-after-refusal", prop=prop)
+            P.check(len(sock.tls) == own, "no-tls-after-refusal", "proxy:tunnel:tls-after-refusal", prop=prop)
+            P.check(not origins or origins[0].raw == b"", "origin-untouched-after-refusal",
+                    "proxy:tunnel:origin-bytes-after-refusal", prop=prop)
 
 
 METHOD_REPLY = (b"\x05\x00", b"\x05\x02", b"\x05\xff", b"\x05\x01")
